@@ -109,6 +109,8 @@ def decide(ctx: Ctx, mod) -> int:
                         mod.oracle_on_case(ctx, b["case"])
                 if len(ctx.violations) == before:
                     mod.run(ctx)
+            except core.Enough as ex:
+                ctx.notes.append(str(ex))
             except Infra:
                 raise
             except Exception:
@@ -165,7 +167,10 @@ def main() -> int:
             print("not reproduced on the current tree")
             return 0
         checker_cmd = lean_phase(ctx, mod)
-        mod.run(ctx)
+        try:
+            mod.run(ctx)
+        except core.Enough as ex:
+            ctx.notes.append(str(ex))
         rc = decide(ctx, mod)
         core.write_evidence(ctx, mod, violations=(1 if rc == 1 else 0), checker_cmd=checker_cmd)
         print(f"[{pid}] tier={a.tier} seed={seed} obligations={len(ctx.obligations)} "
